@@ -767,6 +767,9 @@ theorem Inv_step (crc : List Nat → Nat) (ser : Entry → List Nat) (de : List 
   | recoverMem now => exact Inv_recoverMem c now hi
   | decisions => exact hi
   | forceResolve id b => exact Inv_forceResolve c id b hi
+  | truncate =>
+    exact Inv_of c _ [] hi (by intro e he; simp [step] at he) (by simpa [step] using PQ_nil)
+      (fun x hx => ⟨hx, by simp⟩) (by intro x o ho; simp at ho)
   | crash n now cfg =>
     rw [step_crash_eq crc ser de c n now cfg hs]
     exact Inv_restartLog cfg c.log _ now hi.oneOutcome hi.scanOK
@@ -865,6 +868,7 @@ theorem events_pending (crc : List Nat → Nat) (ser : Entry → List Nat) (de :
     rintro ⟨p, ⟨hp, _⟩, rfl⟩
     exact ⟨p, hp, rfl⟩
   | decisions => simp [step, events]
+  | truncate => simp [step, events]
   | crash n now cfg =>
     intro h
     have : events c (Step.crash n now cfg) (step crc ser de c (Step.crash n now cfg)).2 = [] := by
@@ -992,6 +996,7 @@ theorem step_complete_new (crc : List Nat → Nat) (ser : Entry → List Nat) (d
   | recover now => exact Or.inl (by simpa [step, recoverFromWal] using h)
   | recoverMem now => exact Or.inl (by simpa [step, recoverMem] using h)
   | decisions => exact Or.inl (by simpa [step] using h)
+  | truncate => simp [step] at h
   | crash n now cfg => exact absurd rfl (hs n now cfg)
 
 theorem recordVote_log (sz : Entry → Nat) (c : Coord) (hn : c.cfg.NoRotate) (id shard : Nat) (v : Vote) (x : Bool) :
@@ -1022,10 +1027,11 @@ theorem recordVote_log (sz : Entry → Nat) (c : Coord) (hn : c.cfg.NoRotate) (i
             · exact ⟨_, rfl⟩
           · exact ⟨_, rfl⟩
 
-/-- as long as the size limit does not rotate the file, every call except a crash only appends
-    to the log -/
+/-- as long as the size limit does not rotate the file, every call except a crash and
+    `truncate_wal` only appends to the log -/
 theorem step_log_grows (crc : List Nat → Nat) (ser : Entry → List Nat) (de : List Nat → Option Entry)
-    (c : Coord) (hn : c.cfg.NoRotate) (s : Step) (hs : ∀ n now cfg, s ≠ Step.crash n now cfg) :
+    (c : Coord) (hn : c.cfg.NoRotate) (s : Step) (hs : ∀ n now cfg, s ≠ Step.crash n now cfg)
+    (ht : s ≠ Step.truncate) :
     ∃ es, (step crc ser de c s).1.log = c.log ++ es := by
   cases s with
   | lock tx h => exact ⟨[], by simp [step, lockAcquire]⟩
@@ -1090,6 +1096,7 @@ theorem step_log_grows (crc : List Nat → Nat) (ser : Entry → List Nat) (de :
   | recover now => exact ⟨[], by simp [step, recoverFromWal]⟩
   | recoverMem now => exact ⟨[], by simp [step, recoverMem]⟩
   | decisions => exact ⟨[], by simp [step]⟩
+  | truncate => exact absurd rfl ht
   | crash n now cfg => exact absurd rfl (hs n now cfg)
 
 /-- every call except a crash leaves the configuration alone -/
@@ -1151,6 +1158,7 @@ theorem step_cfg (crc : List Nat → Nat) (ser : Entry → List Nat) (de : List 
   | recover now => rfl
   | recoverMem now => rfl
   | decisions => rfl
+  | truncate => rfl
   | crash n now cfg => exact absurd rfl (hs n now cfg)
 
 theorem mem_release (h : Nat) (l : List (Nat × Nat)) (p : Nat × Nat) :
